@@ -159,6 +159,14 @@ class Function:
         if k in CALLS:
             fq = nd.get("fq") or "?"
             args = tuple(self.term(a) for a in nd.get("args", []))
+            pf = PURE_FUNCS.get(nd.get("fn")) if args and k in ("CallExpr", "CXXMemberCallExpr") else None
+            if pf is not None and len(pf[0]) == len(args):
+                body = _subst_vars(pf[1], dict(zip(pf[0], args)))
+                if k == "CXXMemberCallExpr":
+                    obj = self.term(nd["obj"]) if "obj" in nd else ("?",)
+                    if obj != ("this",):
+                        body = _subst_this(body, obj)
+                return body
             if k == "CXXMemberCallExpr":
                 obj = self.term(nd["obj"]) if "obj" in nd else ("?",)
                 g = GETTERS.get(nd.get("fn")) if not args else None
@@ -225,25 +233,38 @@ class Function:
 PURE_EXPRS = {}
 
 
-def _pure_member_expr(t):
+PURE_FUNCS = {}
+
+
+def _pure_member_expr(t, pvars=frozenset()):
     if not isinstance(t, tuple) or not t:
         return False
     h = t[0]
     if h == "const" or h == "this":
         return True
+    if h == "var":
+        return t in pvars
     if h == "mem":
-        return _pure_member_expr(t[1])
+        return _pure_member_expr(t[1], pvars)
     if h == "size":
-        return _pure_member_expr(t[1])
+        return _pure_member_expr(t[1], pvars)
     if h == "op" and t[1] not in ("=", "+=", "-=", "*=", "/=", "%=", "<<=", ">>=", "&=", "|=", "^=", ","):
-        return _pure_member_expr(t[2]) and _pure_member_expr(t[3])
+        return _pure_member_expr(t[2], pvars) and _pure_member_expr(t[3], pvars)
     if h == "un" and t[1] in ("-", "~", "!", "+"):
-        return _pure_member_expr(t[2])
+        return _pure_member_expr(t[2], pvars)
     if h == "cond":
-        return all(_pure_member_expr(x) for x in t[1:])
+        return all(_pure_member_expr(x, pvars) for x in t[1:])
     if h == "idx":
-        return _pure_member_expr(t[1]) and _pure_member_expr(t[2])
+        return _pure_member_expr(t[1], pvars) and _pure_member_expr(t[2], pvars)
     return False
+
+
+def _subst_vars(t, m):
+    if isinstance(t, tuple) and t and t[0] == "var" and t in m:
+        return m[t]
+    if isinstance(t, tuple):
+        return tuple(_subst_vars(x, m) if isinstance(x, tuple) else x for x in t)
+    return t
 
 
 def _subst_this(t, obj):
@@ -385,6 +406,20 @@ class Facts:
                         t = fn.term(fn.n(ks[0])["value"])
                         if _pure_member_expr(t):
                             PURE_EXPRS[fn.key] = t
+        # functions with parameters whose body is `return <expression over parameters, constants and this-members>;`
+        PURE_FUNCS.clear()
+        for _round in range(3):
+            for fn in self.functions.values():
+                if fn.key in PURE_FUNCS or not fn.params or fn.body is None or fn.d.get("ctor") or fn.d.get("virtual") or fn.d.get("lambda"):
+                    continue
+                if not fn.file.startswith(self.repo):
+                    continue
+                ks = fn.kids(fn.body)
+                if len(ks) == 1 and fn.n(ks[0])["k"] == "ReturnStmt" and "value" in fn.n(ks[0]):
+                    t = fn.term(fn.n(ks[0])["value"])
+                    pvars = {("var", p["n"], p["d"]) for p in fn.params}
+                    if _pure_member_expr(t, pvars):
+                        PURE_FUNCS[fn.key] = ([("var", p["n"], p["d"]) for p in fn.params], t)
         # override relation
         self.overriders = {}
         for r in self.records.values():
